@@ -9,10 +9,18 @@ use std::time::Duration;
 pub struct AtomicDuration(AtomicUsize);
 
 impl AtomicDuration {
+    // round up to whole milliseconds: a timeout must never fire early and a
+    // sub-millisecond (or zero) duration must not turn into 0, which means "none"
+    #[inline]
+    fn to_millis(d: Duration) -> usize {
+        let ms = d.as_nanos().div_ceil(1_000_000);
+        ms.clamp(1, usize::MAX as u128) as usize
+    }
+
     pub fn new(dur: Option<Duration>) -> Self {
         let dur = match dur {
             None => 0,
-            Some(d) => d.as_millis() as usize,
+            Some(d) => Self::to_millis(d),
         };
 
         AtomicDuration(AtomicUsize::new(dur))
@@ -31,7 +39,7 @@ impl AtomicDuration {
     pub fn store(&self, dur: Option<Duration>) {
         let timeout = match dur {
             None => 0,
-            Some(d) => d.as_millis() as usize,
+            Some(d) => Self::to_millis(d),
         };
 
         self.0.store(timeout, Ordering::Relaxed);
